@@ -319,6 +319,26 @@ def execN (R : Routes) (fixed : Bool) (st : Shards S.Val) (c : Cmd S) : Shards S
   | .msetnx kvs => routePrimary E R fixed st (.msetnx kvs)
   | .randomkey => routePrimary E R fixed st .randomkey
 
+/-- single-key requests: what one client message to one shard actor carries (C02) -/
+def SingleKey : Cmd S → Bool
+  | .single _ _ => true
+  | .fastGet _ => true
+  | .fastSet _ _ => true
+  | _ => false
+
+def cmdKey : Cmd S → Key
+  | .single k _ => k
+  | .fastGet k => k
+  | .fastSet k _ => k
+  | _ => 0
+
+/-- the shard whose mailbox a single-key request is pushed into -/
+def cmdShard (R : Routes) (fixed : Bool) : Cmd S → Nat
+  | .single k _ => R.gen fixed k
+  | .fastGet k => R.bytes k
+  | .fastSet k _ => R.bytes k
+  | _ => 0
+
 /-- the keyspace a client can observe: the union of the shards (first shard wins on a key that
     is stored twice — which `home_unique` excludes) -/
 def abs {ν : Type} : Shards ν → Store ν
